@@ -17,8 +17,14 @@ sys.path.insert(0, os.path.dirname(os.path.abspath(__file__)))
 from C02 import split_segments, validate, MC_CFG, report_live_bad
 
 
-def signature(ev, verdict, had_discard):
-    mode = "kill" if ev["mode"] == "kill" else "power-loss"
+def signature(ev, verdict, had_discard, second_level=False):
+    mode = "kill" if ev["mode"].startswith("kill") and "power" not in ev["mode"] else "power-loss"
+    if not ev.get("linkOk", True):
+        return "recovery:%s:linear-chain-broken" % mode
+    if second_level and verdict["opens"] and verdict["survives"] and verdict["values"] and (not verdict["proofs"] or not verdict["extension"]) and "ReadTx" not in ev.get("detail", ""):
+        # a tx lost in the first crash left its leaf/digests in the hash tree's files (rolled back logically only); the tx that took
+        # its id after recovery is committed, and after the next crash the tree still holds (part of) the old entry
+        return "recovery:binary-linking-inconsistent-after-repeated-crash"
     failed = [k for k in ("opens", "survives", "extension", "values", "proofs", "index", "accepts") if not verdict[k]]
     if not verdict["opens"]:
         return "recovery:%s:open-fails" % mode
@@ -48,9 +54,9 @@ def run(chk, args):
     out, _ = vlib.run_harness(binp, hargs, timeout=3000)
     r = json.loads(out)
     segs = split_segments(open(tf).readlines())
-    if len(segs) != runs:
-        raise MachineryFault("expected %d trace segments, got %d" % (runs, len(segs)))
-    k = min(6, runs)
+    if len(segs) < runs:
+        raise MachineryFault("expected at least %d trace segments, got %d" % (runs, len(segs)))
+    k = 8
     groups = [segs[i::k] for i in range(k)]
     with cf.ThreadPoolExecutor(k) as ex:
         results = list(ex.map(lambda a: validate(a[1], wd, "g%d" % a[0], cfg="TraceCrash.cfg"), list(enumerate(groups))))
@@ -75,12 +81,14 @@ def run(chk, args):
                 ev = json.loads(flat[item["line"] - 1])
                 # did this execution discard precommitted txs before the crash point?
                 start = max(i for i in range(item["line"]) if '"ev":"Reset"' in flat[i])
-                had_discard = any('"ev":"Discard"' in x for x in flat[start:item["line"]])
-                sig = signature(ev, item["verdict"], had_discard)
+                cfg0 = json.loads(flat[start]).get("cfg") or ""
+                had_discard = any('"ev":"Discard"' in x for x in flat[start:item["line"]]) or ("second-level" in cfg0 and "Ext:true" in cfg0)
+                sig = signature(ev, item["verdict"], had_discard, "second-level" in cfg0)
                 chk.violation(sig, "crash image (%s, before physical op %d) recovers to a state the specification rejects: verdict %s; %s; config %s"
                               % (ev["mode"], ev["k"], json.dumps(item["verdict"]), ev.get("detail", ""), json.loads(flat[start]).get("cfg")),
                               {"config": json.loads(flat[start]).get("cfg"), "seed": chk.seed, "crash_point": ev["k"], "mode": ev["mode"],
                                "recovered": ev, "logical_trace_prefix": [json.loads(x) for x in flat[start:item["line"]] if '"Recovered"' not in x][-60:]})
+    chk.cov["second_level_segments"] = len(segs) - runs
     r["traces"] = len(segs)
     vlib.absorb(chk, r)
     chk.cov["crash_images_judged_by_tlc"] = images
@@ -89,7 +97,8 @@ def run(chk, args):
                        "power0 (only fsynced content), power1 (all but the last un-fsynced write per file), powerR (random per-file prefix, torn last write); "
                        "quick: kill + one power mode per point; thorough: all four; distinct = images")
     chk.assumptions += ["power-loss model: per-file prefix of un-fsynced writes + torn last write; no reordering inside a file; created/removed files durable once the "
-                        "directory was synced (what the code assumes)", "crash during recovery itself is not yet enumerated"]
+                        "directory was synced (what the code assumes)", "repeated crashes: a sample of first-level images (6 per workload quick / 30 thorough, preferring points with a precommitted backlog) is continued with three commits and "
+                        "every crash point of that continuation, including the recovery run itself, is enumerated (kill and fsynced-only)"]
 
 
 if __name__ == "__main__":
